@@ -72,6 +72,10 @@ pub struct C13Cfg {
     pub max_chain: usize,
     pub streamed: bool,
     pub restart: bool,
+    /// empty blocks connected before the exploration starts (101 fills the window of
+    /// remembered headers, MAX_REORG_SIZE = 100, so that the reorg-depth limit is in reach)
+    #[serde(default)]
+    pub prefill: usize,
 }
 
 pub struct C13State {
@@ -165,7 +169,7 @@ impl Model for C13Model {
     }
 
     fn name(&self) -> String {
-        format!("chain13(oracles={},L={}{}{})", self.cfg.oracles, self.cfg.max_chain, if self.cfg.streamed { ",streamed" } else { "" }, if self.cfg.restart { ",restart" } else { "" })
+        format!("chain13(oracles={},L={}{}{}{})", self.cfg.oracles, self.cfg.max_chain, if self.cfg.streamed { ",streamed" } else { "" }, if self.cfg.restart { ",restart" } else { "" }, if self.cfg.prefill > 0 { format!(",prefill={}", self.cfg.prefill) } else { String::new() })
     }
 
     fn init(&self) -> C13State {
@@ -173,8 +177,15 @@ impl Model for C13Model {
         c.oracle_pubkeys = (0..self.cfg.oracles as u8).map(oracle_pub).collect();
         let w = World::new(c);
         let f = fund_channel(&w, 1, false, false);
-        let chain = w.new_sim_chain();
-        C13State { w: Some(w), f, chain, bodies: vec![], dead: false }
+        let mut chain = w.new_sim_chain();
+        let mut bodies = vec![];
+        for i in 0..self.cfg.prefill {
+            let b = make_block(&chain.tip().0, chain.height() + 1, 1000 + i as u32, vec![]);
+            let r = w.connect(&mut chain, b, Delivery::Compact);
+            assert!(r.is_ok(), "prefill block {}: {}", i, r.tag());
+            bodies.push(Body::Empty);
+        }
+        C13State { w: Some(w), f, chain, bodies, dead: false }
     }
 
     fn alive(&self, s: &C13State) -> bool {
@@ -187,7 +198,7 @@ impl Model for C13Model {
             v.push(Op::Restart);
         }
         let bodies: Vec<Body> = [Body::Empty, Body::Funding, Body::DoubleSpend].into_iter().filter(|b| self.body_valid(s, *b)).collect();
-        if s.chain.blocks.len() < self.cfg.max_chain {
+        if s.chain.blocks.len() < self.cfg.prefill + self.cfg.max_chain {
             for &b in &bodies {
                 v.push(Op::Add(b, Delivery::Compact));
                 if self.cfg.streamed {
@@ -611,15 +622,17 @@ pub fn strip_saw_block(mut v: serde_json::Value) -> serde_json::Value {
 pub fn configs(tier: Tier) -> Vec<C13Cfg> {
     match tier {
         Tier::Quick => vec![
-            C13Cfg { oracles: 3, max_chain: 3, streamed: false, restart: false },
-            C13Cfg { oracles: 1, max_chain: 2, streamed: true, restart: true },
+            C13Cfg { oracles: 3, max_chain: 3, streamed: false, restart: false, prefill: 0 },
+            C13Cfg { oracles: 1, max_chain: 2, streamed: true, restart: true, prefill: 0 },
+            C13Cfg { oracles: 1, max_chain: 1, streamed: false, restart: false, prefill: 101 },
         ],
         Tier::Thorough => vec![
-            C13Cfg { oracles: 0, max_chain: 3, streamed: true, restart: false },
-            C13Cfg { oracles: 1, max_chain: 4, streamed: true, restart: true },
-            C13Cfg { oracles: 2, max_chain: 3, streamed: false, restart: false },
-            C13Cfg { oracles: 3, max_chain: 4, streamed: true, restart: true },
-            C13Cfg { oracles: 4, max_chain: 3, streamed: false, restart: false },
+            C13Cfg { oracles: 0, max_chain: 3, streamed: true, restart: false, prefill: 0 },
+            C13Cfg { oracles: 1, max_chain: 4, streamed: true, restart: true, prefill: 0 },
+            C13Cfg { oracles: 2, max_chain: 3, streamed: false, restart: false, prefill: 0 },
+            C13Cfg { oracles: 3, max_chain: 4, streamed: true, restart: true, prefill: 0 },
+            C13Cfg { oracles: 4, max_chain: 3, streamed: false, restart: false, prefill: 0 },
+            C13Cfg { oracles: 2, max_chain: 2, streamed: true, restart: true, prefill: 101 },
         ],
     }
 }
